@@ -183,8 +183,8 @@ def replay_layer(rep, prop, tier):
 FAMILIES = {
     "C03": ["canon", "gc", "gc", "npt", "hmc"],
     "C04": ["canon", "gc", "npt", "hmc"],
-    "C05": ["gc"],
-    "C11": ["canon", "canon", "gc", "npt"],
+    "C05": ["gc", "gc", "gc", "gcdrain"],
+    "C11": ["canon", "canon", "gc", "npt", "gcdrain"],
     "C12": ["canon", "canon", "hmc", "npt", "gc"],
     "C14": ["hmc"],
     "C20": ["canon", "gc", "npt", "hmc"],
